@@ -56,7 +56,7 @@ def nontrivial(line, ans):
 
 
 def _is_filler(x):
-    return x in ("T:s", "T:e", "W", "X") or (x[0] == "P" and x[1:].isdigit())
+    return x in ("T:s", "T:e", "W", "X", "S") or (x[0] == "P" and x[1:].isdigit())
 
 
 # ----------------------------------------------------------------------------------------------
@@ -229,7 +229,7 @@ def history(rng, kindmode, cap, n_calls=None, flavour=None):
     toks = tokens_for(kindmode)
     plain = [t for t in toks if not t.endswith(":shared")]
     n = n_calls or rng.randint(30, 40)
-    flavour = flavour or rng.choice(["mixed", "mixed", "repeat", "exports", "evict", "spelling", "shared"])
+    flavour = flavour or rng.choice(["mixed", "mixed", "repeat", "exports", "evict", "spelling", "shared", "siblings"])
     hist = []
     pool = rng.sample(plain, min(len(plain), rng.randint(8, 25)))
     for _ in range(n):
@@ -251,8 +251,10 @@ def history(rng, kindmode, cap, n_calls=None, flavour=None):
         fillers = [f"P{cap + rng.randint(1, 50)}"] + [rng.choice(["W", f"P{rng.randint(1, 30)}"]) for _ in range(2)]
     elif flavour == "spelling":
         fillers = [rng.choice(["T:s", "T:e"]), rng.choice(["W", "X", "P5"])]
+    elif flavour == "siblings":
+        fillers = ["S", rng.choice(["S", "W", "P5"])]
     else:
-        fillers = [rng.choice(["W", "X", f"P{rng.randint(1, 40)}", "W"]) for _ in range(rng.randint(1, 3))]
+        fillers = [rng.choice(["W", "X", f"P{rng.randint(1, 40)}", "S"]) for _ in range(rng.randint(1, 3))]
     for f in fillers:
         hist.insert(rng.randrange(len(hist) + 1), f)
     return hist, flavour
